@@ -39,6 +39,11 @@
    they are the in-place functions applied to [deepcopy_traj T] (see there: the copy loses empty timestamps);
    that the arguments are left alone is checked by the harness (snapshots).
 
+   HISTORIES (bottom half): the functions take the rigs and trajectories as they are at the call.  [edit] / [apply_edit]
+   model every dict path that changes a Rigs object, [call] one call as a function of the current arguments, [hrun] a
+   sequence of calls, edits and refills on one Rigs / one Trajectories object; [check_steps] compares such a sequence run
+   on the real objects, call by call, with [call] on the model's current rigs and the trajectories observed before the call.
+
    NOT MODELLED: the float rounding of compose/inverse (C05's tolerance applies), PoseTransform objects with
    r or t None and zero quaternions (ZeroDivisionError inside compose; outside the quantifier -- [check_case]
    refuses such cases), logging/tqdm. *)
@@ -287,6 +292,112 @@ Definition recover_x := recover_inplace pose comp_x inv_x.
    (PRigs.deepcopy_traj_id). *)
 Definition deepcopy_traj {P} (T : traj P) : traj P := List.filter (fun tm => negb (is_nil (snd tm))) T.
 
+(* ------------------------------------------------------------------ histories *)
+(* The four functions take the Rigs object and the Trajectories object AS THEY ARE AT THE CALL.  A history is a
+   sequence of calls on ONE Rigs object and ONE Trajectories object interleaved with edits of the rigs through the
+   paths the class documents or the library uses, none of which the functions may remember anything about:
+     rigs[r, d] = p (Rigs.__setitem__: self.setdefault(r, {})[d] = p)        rigs[r] = {..}
+     rigs[r][d] = p, rigs[r].update({..}), del rigs[r][d], rigs[r].pop(d)    (plain inner dict; kapture/io/csv.py)
+     del rigs[r], rigs.pop(r), rigs.popitem(), rigs.update(other), rigs |= other, rigs.setdefault(r, {..}),
+     rigs.clear()                                                            (inherited dict methods; importers)
+   [None] = KeyError (rig or member absent). *)
+Inductive edit (P : Type) :=
+| ESetPair (r d : string) (p : P)
+| ESetRig (r : string) (m : al string P)
+| ESetInner (r d : string) (p : P)
+| EUpdInner (r : string) (m : al string P)
+| EDelInner (r d : string)
+| EDelRig (r : string)
+| EPopItem
+| EUpdate (o : rigs P)
+| ESetDefault (r : string) (m : al string P)
+| EClear.
+Arguments ESetPair {P} r d p.
+Arguments ESetRig {P} r m.
+Arguments ESetInner {P} r d p.
+Arguments EUpdInner {P} r m.
+Arguments EDelInner {P} r d.
+Arguments EDelRig {P} r.
+Arguments EPopItem {P}.
+Arguments EUpdate {P} o.
+Arguments ESetDefault {P} r m.
+Arguments EClear {P}.
+
+(* d.update(o) on insertion-ordered dicts *)
+Definition al_update {K V} `{EqDec K} (o m : al K V) : al K V :=
+  fold_left (fun acc kv => insert (fst kv) (snd kv) acc) o m.
+
+Definition apply_edit {P} (e : edit P) (R : rigs P) : option (rigs P) :=
+  match e with
+  | ESetPair r d p => Some (set2 r d p R)
+  | ESetRig r m => Some (insert r m R)
+  | ESetInner r d p => match lookup r R with Some i => Some (insert r (insert d p i) R) | None => None end
+  | EUpdInner r m => match lookup r R with Some i => Some (insert r (al_update m i) R) | None => None end
+  | EDelInner r d =>
+      match lookup r R with
+      | Some i => if mem d i then Some (insert r (AL.remove d i) R) else None
+      | None => None
+      end
+  | EDelRig r => if mem r R then Some (AL.remove r R) else None
+  | EPopItem => match R with [] => None | _ => Some (removelast R) end
+  | EUpdate o => Some (al_update o R)
+  | ESetDefault r m => Some (if mem r R then R else insert r m R)
+  | EClear => Some []
+  end.
+
+Inductive kind := KRemove | KRemoveIp | KRecover | KRecoverIp.
+Definition inplace (k : kind) : bool := match k with KRemoveIp | KRecoverIp => true | _ => false end.
+
+Section History.
+  Variable P : Type.
+  Variable comp : P -> P -> P.
+  Variable inv : P -> P.
+  Variable fuel : nat.
+
+  (* one call: a function of the rigs and the trajectories it is given (and the master list), of nothing else *)
+  Definition call (k : kind) (masters : option (list string)) (R : rigs P) (T : traj P) : outcome (traj P) :=
+    match k with
+    | KRemove => remove_inplace P comp fuel R (deepcopy_traj T)
+    | KRemoveIp => remove_inplace P comp fuel R T
+    | KRecover => recover_inplace P comp inv fuel R masters (deepcopy_traj T)
+    | KRecoverIp => recover_inplace P comp inv fuel R masters T
+    end.
+
+  (* the Trajectories object after the call: the copying variants leave it alone, the in-place variants leave their
+     result (or the state at the RuntimeError; a KeyError is unreachable on real dicts, PRigs) *)
+  Definition after_call (k : kind) (T : traj P) (o : outcome (traj P)) : traj P :=
+    if inplace k then match o with Done T' | RuntimeErr T' => T' | KeyErr => T end else T.
+
+  Inductive step :=
+  | SEdit (e : edit P)                                (* an edit of the Rigs object; a KeyError changes nothing *)
+  | STraj (T : traj P)                                (* the Trajectories object is cleared and refilled *)
+  | SCall (k : kind) (masters : option (list string)).
+
+  Definition state : Type := rigs P * traj P.
+  Definition step_state (st : state) (s : step) : state :=
+    match s with
+    | SEdit e => match apply_edit e (fst st) with Some R' => (R', snd st) | None => st end
+    | STraj T => (fst st, T)
+    | SCall k m => (fst st, after_call k (snd st) (call k m (fst st) (snd st)))
+    end.
+  Definition hstate (h : list step) (st : state) : state := fold_left step_state h st.
+  (* the outcomes of the calls of a history, in order *)
+  Fixpoint hrun (h : list step) (st : state) : list (outcome (traj P)) :=
+    match h with
+    | [] => []
+    | s :: h' =>
+        match s with SCall k m => [call k m (fst st) (snd st)] | _ => [] end ++ hrun h' (step_state st s)
+    end.
+End History.
+Arguments SEdit {P} e.
+Arguments STraj {P} T.
+Arguments SCall {P} k masters.
+
+Definition call_spec := call pose MPose.compose2 MPose.inverse max_depth.
+Definition hstate_spec := hstate pose MPose.compose2 MPose.inverse max_depth.
+Definition hrun_spec := hrun pose MPose.compose2 MPose.inverse max_depth.
+Definition call_x := call pose comp_x inv_x max_depth.
+
 (* ------------------------------------------------------------------ correspondence *)
 Inductive exc := ENone | ERuntime | EKey | EOther.
 Definition exc_eqb (a b : exc) : bool :=
@@ -361,3 +472,58 @@ Definition check_case (c : case) : bool :=
   | None, None, None => true
   | _, _, _ => false
   end.
+
+(* ---- histories: what was observed at every step of a sequence on ONE Rigs and ONE Trajectories object *)
+Fixpoint all2 {A} (f : A -> A -> bool) (l m : list A) : bool :=
+  match l, m with
+  | [], [] => true
+  | x :: l', y :: m' => f x y && all2 f l' m'
+  | _, _ => false
+  end.
+Definition quat_eqb (a b : quat) : bool :=
+  Qeq_bool (qw a) (qw b) && Qeq_bool (qx a) (qx b) && Qeq_bool (qy a) (qy b) && Qeq_bool (qz a) (qz b).
+Definition vec_eqb (a b : vec) : bool := Qeq_bool (vx a) (vx b) && Qeq_bool (vy a) (vy b) && Qeq_bool (vz a) (vz b).
+Definition pose_eqb (a b : pose) : bool := quat_eqb (pr a) (pr b) && vec_eqb (pt a) (pt b).
+(* the same dict of dicts: same keys in the same order at both levels, the very same doubles *)
+Definition map2_eqb {K} `{EqDec K} (a b : map2 K string pose) : bool :=
+  all2 (fun x y => eqb (fst x) (fst y) &&
+                   all2 (fun u v => eqb (fst u) (fst v) && pose_eqb (snd u) (snd v)) (snd x) (snd y)) a b.
+
+Inductive hobs :=
+| HEdit (e : edit pose) (x : exc) (after : rigs pose)   (* the edit raised x; snapshot of the Rigs object afterwards *)
+| HTraj (T : traj pose)                                 (* snapshot of the Trajectories object after the refill *)
+| HCall (k : kind) (masters : option (list string))
+        (o : obs)                                       (* exception class; returned object / argument afterwards *)
+        (pure : bool).                                  (* snapshots: rigs unchanged; copying variant: argument
+                                                           unchanged and not returned *)
+
+(* R is the MODEL's rigs (initial rigs through apply_edit); T is the Trajectories object as observed before the
+   step (doubles as exact rationals): every call is compared with the model applied to the CURRENT (R, T) *)
+Fixpoint check_steps (h : list hobs) (R : rigs pose) (T : traj pose) : bool :=
+  match h with
+  | [] => true
+  | HEdit e x after :: h' =>
+      match apply_edit e R with
+      | Some R' => exc_eqb x ENone && map2_eqb R' after && wf2b R' && all_poses nonzero R' && check_steps h' R' T
+      | None => exc_eqb x EKey && map2_eqb R after && check_steps h' R T
+      end
+  | HTraj T' :: h' => wf2b T' && all_poses nonzero T' && check_steps h' R T'
+  | HCall k m o pure :: h' =>
+      pure &&
+      (if inplace k then agree_inplace (call_x k m R T) o else agree_copy (call_x k m R T) o) &&
+      (if inplace k
+       then match o_state o with
+            | Some U => wf2b U && all_poses nonzero U && check_steps h' R U
+            | None => false
+            end
+       else check_steps h' R T)
+  end.
+
+Record hcase := { h_rigs : rigs pose; h_traj : traj pose; h_steps : list hobs }.
+Definition check_hcase (c : hcase) : bool :=
+  wf2b (h_rigs c) && wf2b (h_traj c) && all_poses nonzero (h_rigs c) && all_poses nonzero (h_traj c) &&
+  check_steps (h_steps c) (h_rigs c) (h_traj c).
+
+Inductive xcase := XOne (c : case) | XHist (c : hcase).
+Definition check_xcase (x : xcase) : bool :=
+  match x with XOne c => check_case c | XHist c => check_hcase c end.
